@@ -152,6 +152,142 @@ struct Optimizer<'a, T: RealNumber, M: Matrix<T>, K: Kernel<T, M::RowVector>> {
     recalculate_minmax_grad: bool,
 }
 
+/// Verification hooks (cfg `smartcore_verif` only): a thread-local trace of what the optimizer of
+/// `SVC::fit` did (visiting orders drawn, `process` outcomes, every SMO step, every `clean`).
+#[cfg(smartcore_verif)]
+pub mod verif {
+    use std::cell::{Cell, RefCell};
+
+    /// Plain copy of the numeric fields of one support vector.
+    #[derive(Debug, Clone)]
+    pub struct SvRec {
+        /// row of the training matrix
+        pub index: usize,
+        /// dual coefficient
+        pub alpha: f64,
+        /// gradient
+        pub grad: f64,
+        /// lower bound of the box
+        pub cmin: f64,
+        /// upper bound of the box
+        pub cmax: f64,
+    }
+
+    /// One recorded event.
+    #[derive(Debug, Clone)]
+    pub enum Event {
+        /// output of `permutate`
+        Perm(Vec<usize>),
+        /// `process(i, ..)`: `known` = row already a support vector, `inserted` = a new support
+        /// vector was put at position 0 (with gradient `g`); `after` is the list after the call.
+        Process {
+            /// row
+            i: usize,
+            /// label (+1 / -1)
+            y: f64,
+            /// already present
+            known: bool,
+            /// inserted at position 0
+            inserted: bool,
+            /// initial gradient of the candidate
+            g: f64,
+            /// support vectors before the call
+            before: Vec<SvRec>,
+            /// support vectors after the call
+            after: Vec<SvRec>,
+        },
+        /// one call of `smo` that found a pair: positions, raw and clipped step, state before/after
+        Smo {
+            /// position of the first vector
+            idx_1: usize,
+            /// position of the second vector
+            idx_2: usize,
+            /// kernel value of the pair
+            k12: f64,
+            /// step before clipping
+            raw_step: f64,
+            /// step after clipping
+            step: f64,
+            /// support vectors before the update
+            before: Vec<SvRec>,
+            /// support vectors after the update
+            after: Vec<SvRec>,
+            /// gmin after the update
+            gmin: f64,
+            /// gmax after the update
+            gmax: f64,
+        },
+        /// `clean`: state before and after, and the (gmin, gmax) it used
+        Clean {
+            /// support vectors before
+            before: Vec<SvRec>,
+            /// support vectors after
+            after: Vec<SvRec>,
+            /// gmin used
+            gmin: f64,
+            /// gmax used
+            gmax: f64,
+        },
+        /// end of `optimize`
+        Done {
+            /// final support vectors
+            sv: Vec<SvRec>,
+            /// bias
+            b: f64,
+        },
+    }
+
+    thread_local! {
+        /// recording switch (off by default)
+        pub static ENABLED: Cell<bool> = Cell::new(false);
+        /// the trace of this thread, oldest first
+        pub static TRACE: RefCell<Vec<Event>> = RefCell::new(Vec::new());
+    }
+
+    /// is recording on?
+    pub fn enabled() -> bool {
+        ENABLED.with(|e| e.get())
+    }
+    /// append an event if recording is on
+    pub fn push(e: Event) {
+        if enabled() {
+            TRACE.with(|t| {
+                let mut t = t.borrow_mut();
+                // bounded, so that a non-terminating fit cannot exhaust memory
+                if t.len() < 200_000 {
+                    t.push(e);
+                }
+            });
+        }
+    }
+    /// switch recording on and clear the trace
+    pub fn start() {
+        ENABLED.with(|e| e.set(true));
+        TRACE.with(|t| t.borrow_mut().clear());
+    }
+    /// switch recording off and return the trace
+    pub fn take() -> Vec<Event> {
+        ENABLED.with(|e| e.set(false));
+        TRACE.with(|t| std::mem::take(&mut *t.borrow_mut()))
+    }
+}
+
+#[cfg(smartcore_verif)]
+impl<'a, T: RealNumber, M: Matrix<T>, K: Kernel<T, M::RowVector>> Optimizer<'a, T, M, K> {
+    fn verif_snapshot(&self) -> Vec<verif::SvRec> {
+        self.sv
+            .iter()
+            .map(|v| verif::SvRec {
+                index: v.index,
+                alpha: v.alpha.to_f64().unwrap(),
+                grad: v.grad.to_f64().unwrap(),
+                cmin: v.cmin.to_f64().unwrap(),
+                cmax: v.cmax.to_f64().unwrap(),
+            })
+            .collect()
+    }
+}
+
 impl<T: RealNumber, M: Matrix<T>, K: Kernel<T, M::RowVector>> SVCParameters<T, M, K> {
     /// Number of epochs.
     pub fn with_epoch(mut self, epoch: usize) -> Self {
@@ -427,6 +563,12 @@ impl<'a, T: RealNumber, M: Matrix<T>, K: Kernel<T, M::RowVector>> Optimizer<'a, 
 
         let b = (self.gmax + self.gmin) / T::two();
 
+        #[cfg(smartcore_verif)]
+        verif::push(verif::Event::Done {
+            sv: self.verif_snapshot(),
+            b: b.to_f64().unwrap(),
+        });
+
         for v in self.sv {
             support_vectors.push(v.x);
             w.push(v.alpha);
@@ -462,9 +604,28 @@ impl<'a, T: RealNumber, M: Matrix<T>, K: Kernel<T, M::RowVector>> Optimizer<'a, 
     fn process(&mut self, i: usize, x: M::RowVector, y: T, cache: &mut Cache<'_, T, M, K>) -> bool {
         for j in 0..self.sv.len() {
             if self.sv[j].index == i {
+                #[cfg(smartcore_verif)]
+                if verif::enabled() {
+                    verif::push(verif::Event::Process {
+                        i,
+                        y: y.to_f64().unwrap(),
+                        known: true,
+                        inserted: false,
+                        g: 0f64,
+                        before: self.verif_snapshot(),
+                        after: self.verif_snapshot(),
+                    });
+                }
                 return true;
             }
         }
+
+        #[cfg(smartcore_verif)]
+        let verif_before = if verif::enabled() {
+            self.verif_snapshot()
+        } else {
+            Vec::new()
+        };
 
         let mut g = y;
 
@@ -481,6 +642,18 @@ impl<'a, T: RealNumber, M: Matrix<T>, K: Kernel<T, M::RowVector>> Optimizer<'a, 
         if self.gmin < self.gmax
             && ((y > T::zero() && g < self.gmin) || (y < T::zero() && g > self.gmax))
         {
+            #[cfg(smartcore_verif)]
+            if verif::enabled() {
+                verif::push(verif::Event::Process {
+                    i,
+                    y: y.to_f64().unwrap(),
+                    known: false,
+                    inserted: false,
+                    g: g.to_f64().unwrap(),
+                    before: verif_before,
+                    after: self.verif_snapshot(),
+                });
+            }
             return false;
         }
 
@@ -492,6 +665,19 @@ impl<'a, T: RealNumber, M: Matrix<T>, K: Kernel<T, M::RowVector>> Optimizer<'a, 
             0,
             SupportVector::new(i, x, y, g, self.parameters.c, self.kernel),
         );
+
+        #[cfg(smartcore_verif)]
+        if verif::enabled() {
+            verif::push(verif::Event::Process {
+                i,
+                y: y.to_f64().unwrap(),
+                known: false,
+                inserted: true,
+                g: g.to_f64().unwrap(),
+                before: verif_before,
+                after: self.verif_snapshot(),
+            });
+        }
 
         if y > T::zero() {
             self.smo(None, Some(0), T::zero(), cache);
@@ -551,6 +737,13 @@ impl<'a, T: RealNumber, M: Matrix<T>, K: Kernel<T, M::RowVector>> Optimizer<'a, 
 
         let mut idxs_to_drop: HashSet<usize> = HashSet::new();
 
+        #[cfg(smartcore_verif)]
+        let verif_before = if verif::enabled() {
+            self.verif_snapshot()
+        } else {
+            Vec::new()
+        };
+
         self.sv.retain(|v| {
             if v.alpha == T::zero()
                 && ((v.grad >= gmax && T::zero() >= v.cmax)
@@ -562,6 +755,16 @@ impl<'a, T: RealNumber, M: Matrix<T>, K: Kernel<T, M::RowVector>> Optimizer<'a, 
             true
         });
 
+        #[cfg(smartcore_verif)]
+        if verif::enabled() {
+            verif::push(verif::Event::Clean {
+                before: verif_before,
+                after: self.verif_snapshot(),
+                gmin: gmin.to_f64().unwrap(),
+                gmax: gmax.to_f64().unwrap(),
+            });
+        }
+
         cache.drop(idxs_to_drop);
         self.recalculate_minmax_grad = true;
     }
@@ -570,6 +773,8 @@ impl<'a, T: RealNumber, M: Matrix<T>, K: Kernel<T, M::RowVector>> Optimizer<'a, 
         let mut rng = rand::thread_rng();
         let mut range: Vec<usize> = (0..n).collect();
         range.shuffle(&mut rng);
+        #[cfg(smartcore_verif)]
+        verif::push(verif::Event::Perm(range.clone()));
         range
     }
 
@@ -686,6 +891,15 @@ impl<'a, T: RealNumber, M: Matrix<T>, K: Kernel<T, M::RowVector>> Optimizer<'a, 
 
                 let mut step = (self.sv[idx_2].grad - self.sv[idx_1].grad) / curv;
 
+                #[cfg(smartcore_verif)]
+                let verif_raw = step;
+                #[cfg(smartcore_verif)]
+                let verif_before = if verif::enabled() {
+                    self.verif_snapshot()
+                } else {
+                    Vec::new()
+                };
+
                 if step >= T::zero() {
                     let mut ostep = self.sv[idx_1].alpha - self.sv[idx_1].cmin;
                     if ostep < step {
@@ -707,6 +921,21 @@ impl<'a, T: RealNumber, M: Matrix<T>, K: Kernel<T, M::RowVector>> Optimizer<'a, 
                 }
 
                 self.update(idx_1, idx_2, step, cache);
+
+                #[cfg(smartcore_verif)]
+                if verif::enabled() {
+                    verif::push(verif::Event::Smo {
+                        idx_1,
+                        idx_2,
+                        k12: k_v_12.to_f64().unwrap(),
+                        raw_step: verif_raw.to_f64().unwrap(),
+                        step: step.to_f64().unwrap(),
+                        before: verif_before,
+                        after: self.verif_snapshot(),
+                        gmin: self.gmin.to_f64().unwrap(),
+                        gmax: self.gmax.to_f64().unwrap(),
+                    });
+                }
 
                 self.gmax - self.gmin > tol
             }
